@@ -42,6 +42,8 @@ structure Trip where
   id : Nat
   batch : List BEntry
   depart : Nat                    -- ghost: departure time
+  lo : Nat := 0                   -- ghost: the batch is made of the puts number lo … hi-1
+  hi : Nat := 0
   deriving Repr, DecidableEq, Inhabited
 
 structure FleetCfg where
@@ -67,6 +69,7 @@ structure FleetStore where
   flagged : Bool := false          -- `adv` was asked to jump over a pending event (never by the harness)
   -- ghost
   departed : List Trip := []       -- every trip that ever left, in departure order
+  upTo : Nat := 0                  -- every put with ordinal < upTo has left with some trip
   readyAt : List (Nat × Nat) := [] -- (put ordinal of the entry, time at which it became retrievable)
   newReady : List Nat := []        -- ids of the items that became retrievable during the current step (output only)
   deriving Repr, Inhabited
@@ -94,18 +97,21 @@ def waiting (s : FleetStore) : List BEntry := s.b.transit.filter (fun e => !s.in
 def body (s : FleetStore) : FleetStore :=
   let w := s.waiting
   let s1 := if w.isEmpty then s else
-    let t : Trip := { id := s.nextTrip, batch := w, depart := s.now }
+    let t : Trip := { id := s.nextTrip, batch := w, depart := s.now, lo := s.upTo, hi := s.b.putLog.length }
     ({ s with inTransit := s.inTransit ++ w, trips := s.trips ++ [t], nextTrip := s.nextTrip + 1,
-              departed := s.departed ++ [t] }).sched s.now true (.init s.nextTrip)
+              departed := s.departed ++ [t], upTo := s.b.putLog.length }).sched s.now true (.init s.nextTrip)
   let s2 := if s1.actTriggered then { s1 with curAct := s1.curAct + 1, actTriggered := false, actProcessed := false } else s1
   s2.enterLoop
+
+/-- `len(self.ready_items) < self.capacity` -/
+def readyRoom (cfg : FleetCfg) (b : BufStore) : Bool :=
+  match cfg.cap with | none => true | some c => decide (b.ready.length < c)
 
 /-- one item of an arriving batch: `items.index`, pop, `in_transit.remove`, append to ready_items, the two triggers -/
 def moveOne (s : FleetStore) (e : BEntry) : FleetStore :=
   if !s.b.transit.contains e then { s with b := { s.b with crashed := true } }       -- items.index(item): ValueError
   else
-    let room : Bool := match s.cfg.cap with | none => true | some c => decide (s.b.ready.length < c)
-    if room then
+    if readyRoom s.cfg s.b then
       { s with b := ((s.b.arrive e).trigGet).trigPut, inTransit := s.inTransit.erase e,
                readyAt := s.readyAt ++ [(e.seq, s.now)], newReady := s.newReady ++ [e.item.id] }
     else { s with b := { s.b with transit := s.b.transit.erase e, crashed := true }, inTransit := s.inTransit.erase e }
@@ -114,8 +120,8 @@ def arriveTrip (s : FleetStore) (m : Nat) : FleetStore :=
   match s.trips.find? (fun t => t.id == m) with
   | none => s
   | some t =>
-    let s1 := t.batch.foldl (fun s e => if s.b.crashed then s else s.moveOne e) s
-    { s1 with trips := s1.trips.filter (fun t => t.id != m) }
+    -- the trip process ends with this step: it is no longer under way
+    t.batch.foldl (fun s e => if s.b.crashed then s else s.moveOne e) { s with trips := s.trips.filter (fun t => t.id != m) }
 
 def handle (s : FleetStore) (k : FKind) : FleetStore :=
   match k with
@@ -141,16 +147,18 @@ def adv (s : FleetStore) (dt : Nat) : FleetStore :=
   | e :: _ => if e.time < s.now + dt then { s with flagged := true } else { s with b := s.b.setNow (s.now + dt) }
   | [] => { s with b := s.b.setNow (s.now + dt) }
 
+def capFull (cfg : FleetCfg) (b : BufStore) : Bool :=
+  match cfg.cap with | none => false | some c => decide (b.level = c)
+
+/-- `if len(items) + len(ready_items) == capacity and not activate_fleet.triggered: activate_fleet.succeed()` -/
+def trigger (s : FleetStore) : FleetStore :=
+  if capFull s.cfg s.b && !s.actTriggered then ({ s with actTriggered := true }).sched s.now false (.act s.curAct) else s
+
 /-- `_do_put` + `put`: BufferStore's put without the move process, a second reserve-get trigger, the capacity trigger -/
 def put (s : FleetStore) (proc tid : Nat) (x : Item) : FleetStore × BufStore.Res :=
   let (b1, r) := s.b.put proc tid x 0
   match r with
-  | .ok =>
-    let b2 := { b1.trigGet with timers := [] }
-    let s1 := { s with b := b2 }
-    let full : Bool := match s.cfg.cap with | none => false | some c => decide (b2.level = c)
-    if full ∧ !s1.actTriggered then (({ s1 with actTriggered := true }).sched s1.now false (.act s1.curAct), .ok)
-    else (s1, .ok)
+  | .ok => (({ s with b := { b1.trigGet with timers := [] } }).trigger, .ok)
   | r => ({ s with b := b1 }, r)
 
 inductive Op where
